@@ -9,13 +9,16 @@ package main
 import (
 	"context"
 	"fmt"
+	"os"
 	"regexp"
+	"regexp/syntax"
 	"sort"
 	"strings"
 	"unicode"
 
 	"github.com/sourcegraph/zoekt"
 	"github.com/sourcegraph/zoekt/index"
+	"github.com/sourcegraph/zoekt/query"
 
 	"verifharness/gen"
 )
@@ -116,6 +119,65 @@ func runComponents(w *gen.Writer, r *gen.Rand, f gen.Flags) {
 	runWord(w, r.Fork(), f)
 	runSelect(w, r.Fork(), f)
 	runCaseNgrams(w, r.Fork(), f)
+	runExtract(w, r.Fork(), f)
+}
+
+// runExtract: L9. The real regexpToMatchTreeRecursive on generated and hand-picked regexps (parsed with zoekt's flags,
+// raw or optimised as the query front ends do) against the Lean model: extracted literal tree, isEqual, singleLine.
+func runExtract(w *gen.Writer, r *gen.Rand, f gen.Flags) {
+	dir, err := os.MkdirTemp(os.Getenv("VERIF_WORK"), "c01x-")
+	if err != nil {
+		panic(err)
+	}
+	defer os.RemoveAll(dir)
+	c := genCorpus(r.Fork(), false)
+	p, err := buildSimpleShard(dir, 0, &c.Repos[0])
+	if err != nil {
+		panic(err)
+	}
+	s, err := openSearcher(p)
+	if err != nil {
+		panic(err)
+	}
+	defer s.Close()
+	fixed := []string{"foo.*bar", "(foo|bar)baz", "fo+", "(abc){2,}", "(abc){1,3}", "(abc){0,2}x", "abc|", "a.c", "^foo$", "foo\\nbar",
+		"(?i)foo", "foo(?s:.*)bar", `\bfoo\b`, "[a-c]def", "(foo)(bar)?", "x*", "(?:abc)+def", "éa.*日本語", "foo|bar|ba", "(foo|bar)|baz",
+		"abc(def|ghi)jkl", "abc.*", ".*", "(?i:abc)def", "ab", "abcd", "foo\\s+bar", "(a|b)cdef", "日本語|abc", "(abc)+", "((abc))", "abc{2}", "(abcabc|xyz)", "a|b", "(?s)abc.def"}
+	g := newQGen(r.Fork(), c)
+	n := f.N(600, 20000)
+	for i := 0; i < n; i++ {
+		var pat string
+		if i < len(fixed) {
+			pat = fixed[i]
+		} else {
+			pat = g.regexSource()
+		}
+		re, err := syntax.Parse(pat, zoektRegexpFlags)
+		if err != nil {
+			continue
+		}
+		if r.Chance(2, 3) {
+			re = query.OptimizeRegexp(re, zoektRegexpFlags)
+		}
+		cs := r.Bool()
+		ast, out, err := index.VerifExtract(s, re, cs)
+		if err != nil {
+			w.Count("extract-error", 1)
+			continue
+		}
+		b := "0"
+		if cs {
+			b = "1"
+		}
+		class := "extract-brute"
+		if strings.Contains(out, "S:") {
+			class = "extract-literals"
+		}
+		if strings.Contains(out, "eq=1") {
+			class = "extract-isEqual"
+		}
+		w.Emit(gen.Case{In: "extract " + b + " " + ast, Impl: out, Class: class, Nontrivial: strings.Contains(out, "S:")})
+	}
 }
 
 // runCaseNgrams: the real generateCaseNgrams against the Lean odometer model; unicode.SimpleFold enters the model as
